@@ -54,6 +54,10 @@ def gen(rng, tier):
         'history': rng.choice([None, None, 'idle_disconnect', 'cycle']),
         'second_loss': rng.random() < 0.3,
         'lat': rng.choice([0, 1]),
+        # a second client object in the same process, connected to the same
+        # server (its own namespace), loses its transport while the first
+        # one is busy reconnecting: it must reconnect all the same
+        'bystander': rng.random() < 0.25,
     }
     pattern = [rng.choice(['refuse', 'refuse', 'ns_refuse', 'accept'])
                for _ in range(rng.randrange(0, 8))] + ['accept']
@@ -101,7 +105,7 @@ def _run(case, cfg, w):
         return [('ret', None)]
 
     def build_server():
-        srv = w.add_server('s', namespaces=list(cfg['nss']),
+        srv = w.add_server('s', namespaces=list(cfg['nss']) + ['/by'],
                            ping_interval=5, ping_timeout=3)
         for ns in cfg['nss']:
             for evn in ('connect', 'disconnect'):
@@ -173,7 +177,8 @@ def _run(case, cfg, w):
     cur_outcome = [None]
 
     def lose_now():
-        live = [cn for cn in w.net.conns if not cn.severed]
+        live = [cn for cn in w.net.conns if not cn.severed
+                and 'by=1' not in str((cn.info or {}).get('url'))]
         if live:
             rec.count('fault.loss_in_connect_handler')
             live[-1].sever(0.0, 0.0)
@@ -232,12 +237,41 @@ def _run(case, cfg, w):
     n_initial_attempts = len(w.net.attempts)
     first_info = w.net.attempts[0]['info']
 
+    # ---- the bystander client
+    by = None
+    by_conn = None
+    BY_URL = 'http://s?by=1'
+
+    def is_by(x):
+        info = x.get('info') if isinstance(x, dict) else \
+            getattr(x, 'info', None)
+        return 'by=1' in str((info or {}).get('url'))
+    main_conn = [cn for cn in w.net.conns if not cn.severed][-1]
+    if cfg.get('bystander'):
+        srv.on('connect', w.make_handler(('s2', 'func', '/by', 'connect'),
+                                         lambda *a: [('ret', None)]),
+               namespace='/by')
+        by = w.add_client('by', reconnection=True, reconnection_delay=0.3,
+                          reconnection_delay_max=0.6, randomization_factor=0)
+        for evn in ('connect', 'disconnect'):
+            by.on(evn, w.make_handler(('by', 'func', '/by', evn),
+                                      lambda *a: [('ret', None)],
+                                      coroutine=False), namespace='/by')
+        hb = w.call(by.connect, BY_URL, transports=['websocket'],
+                    namespaces=['/by'], wait_timeout=2)
+        w.settle()
+        if hb.exc is not None or not by.connected:
+            return {'harness': 'bystander failed to connect: %r' % (hb.exc,)}
+        by_conn = [cn for cn in w.net.conns if not cn.severed][-1]
     # ---- outcome of the k-th reconnection attempt is the pattern's k-th
     # entry; the pattern index advances with every transport-level attempt
     state = {'k': 0}
     pattern = list(case['pattern'])
 
     def refuse_hook(name, n):
+        info = w.net.attempts[-1].get('info') or {}
+        if 'by=1' in str(info.get('url')):
+            return False          # the bystander's attempts always succeed
         k = state['k']
         state['k'] += 1
         out = pattern[k] if k < len(pattern) else 'accept'
@@ -254,7 +288,14 @@ def _run(case, cfg, w):
     cause = cfg['cause']
     accidental = cause in ('sever', 'sever_halfopen', 'sever_delayed')
     t_cause = w.now()
-    conn = [cn for cn in w.net.conns if not cn.severed][-1]
+    conn = main_conn
+    if by_conn is not None:
+        # the bystander's own accidental loss, a moment later
+        def by_loss():
+            rec.count('fault.bystander_loss')
+            by_conn.sever(0.0, 0.0)
+        w.after(w.choices.pick('app', (0.0, 0.03, 0.03, 0.3), 'byloss'),
+                by_loss)
     if cause == 'sever':
         conn.sever(0.0, 0.0)
     elif cause == 'sever_delayed':
@@ -316,7 +357,8 @@ def _run(case, cfg, w):
                 not shut['armed']:
             # a further loss right after the successful reconnection
             did_second = True
-            live = [cn for cn in w.net.conns if not cn.severed]
+            live = [cn for cn in w.net.conns if not cn.severed
+                    and not is_by(cn)]
             if live:
                 rec.add('second_loss')
                 pattern[state['k']:] = ['accept']
@@ -335,12 +377,13 @@ def _run(case, cfg, w):
     losses = [e for e in rec.events if e['kind'] == 'h_enter'
               and e['label'][0] == 'c' and e['label'][3] == 'disconnect']
     if not expect_reconnect:
-        if re_enters or len(w.net.attempts) > n_initial_attempts:
+        n_att = len([a for a in w.net.attempts if not is_by(a)])
+        if re_enters or n_att > n_initial_attempts:
             v.add('reconnected_although_not_accidental',
                   'cause %s, reconnection=%s: %d further connect() calls, %d '
                   'further transport attempts'
                   % (cause, cfg['reconnection'], len(re_enters),
-                     len(w.net.attempts) - n_initial_attempts), cause)
+                     n_att - n_initial_attempts), cause)
     else:
         # split into efforts (one per accidental loss)
         second = [e for e in rec.events if e['kind'] == 'second_loss']
@@ -450,7 +493,20 @@ def _run(case, cfg, w):
                   % (len(ok_exits), len(cfg['nss']), len(cons)))
     # every transport attempt carried the same url/headers; every CONNECT
     # the same auth
+    if by is not None:
+        # the bystander lost its transport by accident too: it is connected
+        # again (its attempts are never refused), its handlers ran again
+        byc = [e for e in rec.events if e['kind'] == 'h_enter'
+               and e['label'][0] == 'by' and e['label'][3] == 'connect']
+        if not by.connected or len(byc) != 2:
+            v.add('bystander_not_reconnected', 'a second client in the same '
+                  'process lost its transport while the first one was %s: '
+                  'connected=%s, its connect handler ran %d times'
+                  % ('reconnecting' if expect_reconnect else 'ending',
+                     by.connected, len(byc)))
     for a in w.net.attempts[1:]:
+        if is_by(a):
+            continue
         info = a['info'] or {}
         if info.get('url') != first_info.get('url') or \
                 info.get('header') != first_info.get('header'):
